@@ -882,6 +882,8 @@ template<class Config>
 inline typename Config::BaseType BitVectorState<Config>::extract(typename Config::Plane plane, size_t offset, size_t size) const
 {
 	HCL_ASSERT(size <= Config::NUM_BITS_PER_BLOCK);
+	if (size == 0) // nothing to read, e.g. a zero width signal at the very end of the state or in an empty state
+		return 0;
 	const auto* values = &m_values[plane][offset / Config::NUM_BITS_PER_BLOCK];
 	const size_t wordOffset = offset % Config::NUM_BITS_PER_BLOCK;
 
